@@ -34,8 +34,11 @@ def run(ctx) -> None:
     ctx.rule("h.siblings", "matched-emission block and wrapping are fact-equal across the three join variants", 2)
     ctx.rule("a.name-resolution", "key columns given by name resolve through Table.__getitem__(str): exact stored name "
                                   "first over all columns, first occurrence, missing name raises", 2)
+    ctx.rule("a.key-validation", "_validate_join_keys rejects on spec form, lengths and key KIND only: no rejection depends on a key "
+                                 "column's nullability or whole-dtype equality, and int/str/bool/date/object kinds are admitted", 1)
     from . import nameres
     ctx.section("name-resolution", nameres.check, ctx, "a.name-resolution")
+    ctx.section("key-validation", jr.key_validation, ctx)
     facts = {}
     for v in VARIANTS:
         def one(v=v):
@@ -47,8 +50,8 @@ def run(ctx) -> None:
             if v == "inner_join":
                 jr.inner_unmatched(ctx, jf)
             jr.wrap(ctx, jf)
-            jr.determinism(ctx, jf)
             jr.no_early_result(ctx, jf, "d.no-early-result")
+        ctx.section(f"determinism:{v}", jr.determinism, ctx, v)
         ctx.section(f"join-structure:{v}", one)
         ctx.section(f"purity:{v}", jr.purity, ctx, v)
     ctx.section("siblings", jr.siblings, ctx, facts)
@@ -60,6 +63,12 @@ def run(ctx) -> None:
 
 
 MUTANTS = [
+    dict(id="key-dtypes-compared-with-nullability", module="table", old="				if left_schema.kind is not right_schema.kind:",
+         new="				if left_schema != right_schema:", rules=["a.key-validation"], desc="a None on one side of the key makes the join raise"),
+    dict(id="bool-keys-rejected", module="table", old="			allowed_types = (int, str, bool, date, datetime, object)",
+         new="			allowed_types = (int, str, date, datetime, object)", rules=["a.key-validation"]),
+    dict(id="inner-empty-guard-on-right-rows", module="table", old="		if all(len(col) == 0 for col in result_data):\n			return Table(())",
+         new="		if len(other) == 0 or len(self) == 1:\n			return Table(())", rules=["d.no-early-result"]),
     dict(id="right-value-into-left-buffer", module="table", count=3, nth=0,
          old="					append_cols[c_idx](col[left_idx])\n", new="					append_cols[c_idx](col[right_idx])\n",
          rules=["c.buffers"]),
